@@ -45,26 +45,29 @@ template <class S> static S cbf(int k, S T) {
     case 0: return S(3.75);
     case 1: return S(2.75) + S(0.25) * T;
     case 2: return S(0.5) * std::pow(T, S(1.5)) * std::exp(-S(2.5) / T);
+    case 4: return S(0.5) * std::pow(T, S(1.5)) * std::exp(-S(560) / T);  // Arrhenius-like with a large characteristic temperature: tiny values (1e-20 .. 1e-40 on the lattice)
     default: return S(1.25) + S(0.5) * T + S(0.125) * T * T;
   }
 }
 #define CB(k) \
   static double cbd##k(double T) { g_cb_arg_d = T; g_cb_calls_d++; return cbf<double>(k, T); } \
   static LD cbl##k(LD T) { g_cb_arg_l = T; g_cb_calls_l++; return cbf<LD>(k, T); }
-CB(0) CB(1) CB(2) CB(3)
-static double (*const CBD[])(double) = {cbd0, cbd1, cbd2, cbd3};
-static LD (*const CBL[])(LD) = {cbl0, cbl1, cbl2, cbl3};
+CB(0) CB(1) CB(2) CB(3) CB(4)
+static double (*const CBD[])(double) = {cbd0, cbd1, cbd2, cbd3, cbd4};
+static LD (*const CBL[])(LD) = {cbl0, cbl1, cbl2, cbl3, cbl4};
 Q e1_callback_ref(int k, Q T) {  // reference value of the callback alphabet (used by the chemistry model)
   switch (k) {
     case 0: return Q(3.75);
     case 1: return Q(2.75) + Q(0.25) * T;
     case 2: return Q(0.5) * powq(T, Q(1.5)) * expq(-Q(2.5) / T);
+    case 4: return Q(0.5) * powq(T, Q(1.5)) * expq(-Q(560) / T);
     default: return Q(1.25) + Q(0.5) * T + Q(0.125) * T * T;
   }
 }
-int e1_callback_count() { return 4; }
+int e1_callback_count() { return 5; }  // 0..3: O(1) callbacks used by the default-regime system; 4: the tiny Arrhenius-like one of the large-activation-energy regime
 
 // ---------------------------------------------------------------------------------------------
+static void boundary_points(const System& sys, const Params& P, const std::vector<Pt>& lattice, std::vector<Pt>& out);
 struct Dev { int p; LD v; };
 struct Assignment { int nd; Dev d[3]; int structured = -1; int fam = -1; unsigned mask = 0; };  // fam >= 0: every parameter of Ctx::families[fam] whose bit is set in mask is 0  // structured >= 0: index into Ctx::structured (any number of deviations)
 
@@ -175,7 +178,7 @@ static void set_two_handles(const Params& P, const std::vector<std::string>& nam
 }
 
 struct Runner {
-  Ctx& C; FILE* out; std::map<std::string, Stat> stats; std::map<std::string, long> known; long states = 0, transitions = 0, comparisons = 0, inadmissible = 0, inadmissible_points = 0, done = 0;
+  Ctx& C; FILE* out; std::map<std::string, Stat> stats; std::map<std::string, long> known; long states = 0, transitions = 0, comparisons = 0, inadmissible = 0, inadmissible_points = 0, done = 0, boundary_pts = 0;
   int samples_left; std::map<std::string, int> viol_budget;
   Runner(Ctx& c, FILE* o, int ns) : C(c), out(o), samples_left(ns) {}
 
@@ -273,25 +276,45 @@ struct Runner {
     // representable in double), so a double temporary holding nothing but inputs (Gamma - 1, a*pi/L ...) is no longer exact by accident
     if (O.ldfull) for (auto& kv : P.m) if (std::find(C.sys->frozen.begin(), C.sys->frozen.end(), kv.first) == C.sys->frozen.end()) kv.second = kv.second * 1.00000000012345678901L;  // rounded to long double: a full 64-bit mantissa
     if (C.sys->derive) C.sys->derive(P);
-    std::vector<std::vector<Expect>> ex(C.pts.size());
+    std::vector<Pt> pts = C.pts; size_t nlattice = pts.size();
+    if (!g_red) boundary_points(*C.sys, P, C.pts, pts);
+    std::vector<std::vector<Expect>> ex(pts.size());
     size_t nskip = 0;
-    for (size_t i = 0; i < C.pts.size(); i++) {
-      if (!C.sys->reference(P, C.pts[i], ex[i])) { if (!C.sys->pointwise_admissibility) { inadmissible++; return false; } ex[i].clear(); nskip++; inadmissible_points++; continue; }
-      if (C.pts[i].special) for (auto& e : ex[i]) if (e.mode == 0) e.special = true;
+    for (size_t i = 0; i < pts.size(); i++) {
+      if (!C.sys->reference(P, pts[i], ex[i])) { if (!C.sys->pointwise_admissibility && i < nlattice) { inadmissible++; return false; } ex[i].clear(); nskip++; inadmissible_points++; continue; }
+      if (pts[i].special) for (auto& e : ex[i]) if (e.mode == 0) e.special = true;
     }
-    if (nskip == C.pts.size()) { inadmissible++; return false; }
+    if (nskip == pts.size()) { inadmissible++; return false; }
     if (g_red) { run_reduction(P, ex, a.nd); done++; return true; }
     set_all(P);
-    for (size_t i = 0; i < C.pts.size(); i++) {
-      if (ex[i].empty() && C.sys->pointwise_admissibility) continue;
+    for (size_t i = 0; i < pts.size(); i++) {
+      if (ex[i].empty() && (C.sys->pointwise_admissibility || i >= nlattice)) continue;
       states += 2;  // (assignment, point) in two scalar types
-      if (C.sys->apply_variant) C.sys->apply_variant(C.pts[i].variant);
+      if (i >= nlattice) boundary_pts++;
+      if (C.sys->apply_variant) C.sys->apply_variant(pts[i].variant);
       for (auto& e : ex[i]) if (prop_selected(e.prop)) run_expect(e, P, a.nd);
     }
     done++;
     return true;
   }
 };
+
+// boundary points: lattice points whose coordinate is bit-identical to a length parameter of the *current* assignment (x = L, y = Ly ...:
+// the far side of the periodic box), the coordinate planes through the origin (x = 0, t = 0) and the far corner.  They depend on the
+// assignment, so they are appended per assignment; a boundary point the reference rejects drops only that point.
+static void boundary_points(const System& sys, const Params& P, const std::vector<Pt>& lattice, std::vector<Pt>& out) {
+  if (sys.no_boundary_points) return;
+  const Pt* b = 0; for (auto& p : lattice) if (!p.special) { b = &p; break; }
+  if (!b) return;
+  bool used[4] = {false, false, false, false}; for (auto& p : lattice) for (int j = 0; j < 4; j++) if (p.c[j] != 0) used[j] = true;
+  const char* per[3] = {"Lx", "Ly", "Lz"}; LD len[3]; bool has[3]; int nlen = 0;
+  for (int j = 0; j < 3; j++) { has[j] = false; if (!used[j]) continue; if (P.has(per[j])) { len[j] = P.m.at(per[j]); has[j] = true; } else if (P.has("L")) { len[j] = P.m.at("L"); has[j] = true; } if (has[j]) nlen++; }
+  if (nlen == 0) return;
+  Pt corner = *b; corner.variant = b->variant;
+  for (int j = 0; j < 3; j++) if (has[j]) { Pt q = *b; q.c[j] = len[j]; out.push_back(q); if (j != sys.singular_axis) { Pt z = *b; z.c[j] = 0; out.push_back(z); } corner.c[j] = len[j]; }
+  if (nlen > 1) out.push_back(corner);
+  if (used[3]) { Pt z = *b; z.c[3] = 0; out.push_back(z); }
+}
 
 static void build_ctx(Ctx& C, const System& sys, int tier) {
   C.sys = &sys;
@@ -427,7 +450,7 @@ static int run_system(const System& sys0, int tier, FILE* out, double t_end) {
       for (auto& kv : R.stats) fprintf(fo, "{\"k\":\"stat\",\"key\":\"%s\",\"n\":%ld,\"maxratio\":%.6g,\"maxratio_op\":%.6g,\"nviol\":%ld,\"nknown\":%ld}\n", kv.first.c_str(), kv.second.n, kv.second.maxratio, kv.second.maxratio_op, kv.second.nviol, kv.second.nknown);
       for (auto& kv : g_counts) fprintf(fo, "{\"k\":\"count\",\"system\":\"%s\",\"key\":\"%s\",\"n\":%ld}\n", sys.name.c_str(), kv.first.c_str(), kv.second);
       for (auto& kv : R.known) fprintf(fo, "{\"k\":\"known\",\"key\":\"%s\",\"n\":%ld}\n", kv.first.c_str(), kv.second);
-      fprintf(fo, "{\"k\":\"worker\",\"system\":\"%s\",\"states\":%ld,\"transitions\":%ld,\"comparisons\":%ld,\"inadmissible\":%ld,\"inadmissible_points\":%ld,\"done\":%ld,\"timed_out\":%s,\"stopped_at\":%zu}\n", sys.name.c_str(), R.states, R.transitions, R.comparisons, R.inadmissible, R.inadmissible_points, R.done, timed_out ? "true" : "false", timed_out ? last : C.as.size());
+      fprintf(fo, "{\"k\":\"worker\",\"system\":\"%s\",\"states\":%ld,\"transitions\":%ld,\"comparisons\":%ld,\"inadmissible\":%ld,\"inadmissible_points\":%ld,\"boundary_point_elements\":%ld,\"done\":%ld,\"timed_out\":%s,\"stopped_at\":%zu}\n", sys.name.c_str(), R.states, R.transitions, R.comparisons, R.inadmissible, R.inadmissible_points, R.boundary_pts, R.done, timed_out ? "true" : "false", timed_out ? last : C.as.size());
       fclose(fo); unlink(g_capfile.c_str()); _exit(0);
     }
     pids.push_back(pid);
@@ -465,7 +488,7 @@ static int do_replay() {
   Pt p; // find expectations at the point that has these args: rebuild point from args via the system's reference at a synthetic point
   std::vector<Expect> ex; bool found = false; int rc = 0;
   // try all 24 assignments of args to jet variables is overkill: reference() is evaluated at points of both tiers and matched on args
-  for (int tier = 0; tier < 2 && !found; tier++) for (auto& q : sys->points(tier)) {
+  for (int tier = 0; tier < 2 && !found; tier++) { std::vector<Pt> lat = sys->points(tier), all = lat; boundary_points(*sys, P, lat, all); for (auto& q : all) {
     ex.clear(); if (!sys->reference(P, q, ex)) continue;
     for (auto& e : ex) if (e.fn == fn && e.sig == sig && e.idx == idx && e.cb == cb && e.prop == prop && e.a[0] == a[0] && e.a[1] == a[1] && e.a[2] == a[2] && e.a[3] == a[3]) {
       found = true; p = q;
@@ -478,7 +501,7 @@ static int do_replay() {
       rc = bad ? 1 : 0; break;
     }
     if (found) break;
-  }
+  } }
   if (!found) { fprintf(stderr, "replay: expectation not found on the lattice\n"); return 2; }
   return rc;
 }
